@@ -1050,12 +1050,27 @@ package rockredis
 // local-deletion policy: the background scan hands a key to deletion only when its scheduled time has been reached
 // on this node's clock (never earlier)
 //@ func expDecodeTimeKey(tk []byte) (byte, []byte, int64, error)
-//@   ensures result3 == nil ==> len(tk) >= 10 && result2 == toI64(be64(tk, 1))
+//@   ensures result3 == nil <==> (len(tk) >= 10 && tk[0] == ExpTimeType)
+//@   ensures result3 == nil ==> result2 == toI64(be64(tk, 1)) && result0 == tk[9] && sameSlice(result1, tk[10:len(tk)])
 //@ interface (github.com/youzan/ZanRedisDB/rockredis.expiredMetaBuffer).Write func(b expiredMetaBuffer, m *expiredMeta) error
 //@ noeffect (*github.com/youzan/ZanRedisDB/rockredis.TTLChecker).setNextCheckTime (*github.com/youzan/ZanRedisDB/rockredis.TTLChecker).Lock (*github.com/youzan/ZanRedisDB/rockredis.TTLChecker).Unlock
+// expiry time index key: [ExpTimeType][when be64][dataType][key]; the scheduled time round-trips exactly
 //@ func expEncodeTimeKey(dataType byte, key []byte, when int64) []byte
-//@   trusted expiry index key layout
-//@   ensures fresh(result)
+//@   ensures fresh(result) && len(result) == len(key) + 10 && result[0] == ExpTimeType && toI64(be64(result, 1)) == when && result[9] == dataType && eqAt(result, 10, key)
+//@ func expEncodeMetaKey(dataType byte, key []byte) []byte
+//@   ensures fresh(result) && len(result) == len(key) + 2 && result[0] == ExpMetaType && result[1] == dataType && eqAt(result, 2, key)
+//@ func expDecodeMetaKey(mk []byte) (byte, []byte, error)
+//@   ensures result2 == nil <==> (len(mk) >= 2 && mk[0] == ExpMetaType)
+//@   ensures result2 == nil ==> result0 == mk[1] && sameSlice(result1, mk[2:len(mk)])
+//@ lemma lemmaExpTimeKeyRoundTrip(dataType byte, key []byte, when int64) (byte, []byte, int64, error)
+//@   ensures result3 == nil && result0 == dataType && bytesEq(result1, key) && result2 == when
+// local-deletion policy: scheduling an expiry buffers exactly one time-index entry, for exactly the requested time
+//@ func (exp *localExpiration) rawExpireAt(dataType byte, key []byte, rawValue []byte, when int64, wb engine.WriteBatch) ([]byte, error)
+//@   requires exp != nil && wb != nil
+//@   callassert Put len(arg1) >= 10 && arg1[0] == ExpTimeType && toI64(be64(arg1, 1)) == when && arg1[9] == dataType
+//@   ensures result1 == nil && sameSlice(result0, rawValue) && ghost(wbputs, wb) == old(ghost(wbputs, wb)) + 1
+//@   modifies ghost(wbputs, wb), ghost(wbver, wb)
+//@ noeffect (*github.com/youzan/ZanRedisDB/rockredis.localExpiration).setNextCheckTime
 //@ func (r *RockDB) NewDBRangeLimitIterator(min []byte, max []byte, rtype uint8, offset int, count int, reverse bool) (*engine.RangeLimitedIterator, error)
 //@   trusted opens an engine iterator (engine contract, C20)
 //@   ensures result0 != nil ==> rliOK(result0)
